@@ -151,18 +151,26 @@ func (h *HelloElemVersionBitmap) MarshalBinary() (data []byte, err error) {
 }
 
 func (h *HelloElemVersionBitmap) UnmarshalBinary(data []byte) error {
-	length := len(data)
+	if len(data) < 4 {
+		return errors.New("The []byte is too short to unmarshal a HelloElemVersionBitmap.")
+	}
 	read := 0
 	if err := h.HelloElemHeader.UnmarshalBinary(data[:4]); err != nil {
 		return err
 	}
+	// the bitmaps are those inside the element's own length, not all the bytes that follow
+	length := int(h.HelloElemHeader.Length)
+	if length < 4 || length > len(data) {
+		return errors.New("The hello element length is smaller than its header or larger than the data.")
+	}
 	read += int(h.HelloElemHeader.Len())
 
 	h.Bitmaps = make([]uint32, 0)
-	for read < length {
+	for read+4 <= length {
 		h.Bitmaps = append(h.Bitmaps, binary.BigEndian.Uint32(data[read:read+4]))
 		read += 4
 	}
+	h.Length = uint16(read)
 	return nil
 }
 
@@ -223,18 +231,34 @@ func (h *Hello) UnmarshalBinary(data []byte) error {
 	err := h.Header.UnmarshalBinary(data[next:])
 	next += int(h.Header.Len())
 
+	if err != nil {
+		return err
+	}
+
 	h.Elements = make([]HelloElem, 0)
 	for next < len(data) {
 		e := NewHelloElemHeader()
-		e.UnmarshalBinary(data[next:])
+		if err = e.UnmarshalBinary(data[next:]); err != nil {
+			return err
+		}
+		if e.Length < 4 || int(e.Length) > len(data)-next {
+			return errors.New("The hello element length is smaller than its header or larger than the data.")
+		}
 
 		switch e.Type {
 		case HelloElemType_VersionBitmap:
 			v := NewHelloElemVersionBitmap()
-			err = v.UnmarshalBinary(data[next:])
-			next += int(v.Len())
+			if err = v.UnmarshalBinary(data[next:]); err != nil {
+				return err
+			}
 			h.Elements = append(h.Elements, v)
 		}
+		// elements are padded to 64 bits; unknown elements are skipped
+		adv := (int(e.Length) + 7) / 8 * 8
+		if adv > len(data)-next {
+			adv = len(data) - next
+		}
+		next += adv
 	}
 	return err
 }
